@@ -598,7 +598,7 @@ def describe(c):
 def run(ctx):
     n = 12000 if ctx.quick else 120000
     cases = gen_cases(ctx, n)
-    mism, specv, stats, svb, mfields, model = evaluate(ctx, cases, bash_all=not ctx.quick)
+    mism, specv, stats, svb, mfields, model = evaluate(ctx, cases, bash_all=True)   # batched bash is cheap: every case
     k = min(40, len(mfields))
     pick = ctx.rng.sample(range(len(mfields)), k)
     ce = ctx.coq_eval("xp", [mfields[j] for j in pick])
